@@ -363,6 +363,12 @@ def judge_point(d, R, T, pt, leg, mode, obs, wit):
                     s2 = Simulator.from_json(target)
             finally:
                 os.remove(path)
+        if k % 3 == 0:
+            from vlib.monitors import poke
+            poke(sim, s2)
+            poke(sim.network, s2.network)
+            poke(sim.event_queue, s2.event_queue)
+            obs.ev("original_and_loaded_objects_printed_compared_hashed")
         # ---- complete state: canonicalised dump of the loaded object equals that of the original
         c1, c2 = canon(js), canon(s2.to_json())
         obs.ev("canonical_dumps_compared")
